@@ -385,6 +385,14 @@ def run(ctx: Ctx):
     r_point(ctx, model)
     from ..sites import conversions_drop_caches, no_memoisation
     conversions_drop_caches(ctx, load(ctx.root), "C19", "E-fresh")   # isosteric / Whittaker read pressure_at of converted isotherms
+    ctx.rule("E-fresh (interpolated reads): pressure_at / loading_at answer from an interpolator built for the requested branch / kind / fill, "
+             "whatever an earlier query left in the cache (cache discipline of C03, interpreted): an adsorption-branch isosteric analysis "
+             "after a desorption-branch one must not read desorption pressures")
+    from . import C03 as _C03
+    from ..spec_iso import all_states as _all_states, mkstate as _mkstate
+    _E3 = _C03.Engine(ctx.root, False)
+    _pres, _load, _mat, _tus = _all_states(_E3.t, False)
+    ctx.floor("cache-discipline cases", _C03.cache_discipline(ctx, _E3, _mkstate(_pres[0], _load[0], _mat[0], _tus[0]), prop="C19"), 30)
     ctx.rule("E-fresh: no caching decorator on any function of pygaps.characterisation.")
     no_memoisation(ctx, load(ctx.root), "C19", "E-fresh", ('pygaps.characterisation.',),
                    "cached adsorbate constants survive a change of the adsorbate's properties or backend")
